@@ -5,11 +5,18 @@
 # usage: tools_seeded_confirm.sh <dir-with-seeded-dirs> <ID> [<ID>...]      each <dir>/<ID>/ holds patch.diff, demo.rs, meta.json
 # The scratch worktree and its build output are removed at the end. Results: <dir>/<ID>/confirm.txt
 SRC="$1"; shift
-WT=/tmp/vf-seeded-confirm/wt
-export CARGO_TARGET_DIR=/tmp/vf-seeded-confirm/target CARGO_NET_OFFLINE=true
-mkdir -p /tmp/vf-seeded-confirm
-git -C /repo worktree remove --force "$WT" 2>/dev/null
-git -C /repo worktree add --detach "$WT" HEAD >/dev/null 2>&1 || { echo "cannot create worktree"; exit 2; }
+# With VF_CONFIRM_WT=<existing scratch worktree> (e.g. the one the change was written in, build output warm) that worktree is
+# reset to HEAD and used instead, its own target directory is kept, and several instances can run side by side.
+export CARGO_NET_OFFLINE=true
+if [ -n "${VF_CONFIRM_WT:-}" ]; then
+  WT="$VF_CONFIRM_WT"; TMPD=$(mktemp -d /tmp/vf-seeded-confirm.XXXXXX)
+else
+  WT=/tmp/vf-seeded-confirm/wt; TMPD=/tmp/vf-seeded-confirm
+  export CARGO_TARGET_DIR=/tmp/vf-seeded-confirm/target
+  mkdir -p /tmp/vf-seeded-confirm
+  git -C /repo worktree remove --force "$WT" 2>/dev/null
+  git -C /repo worktree add --detach "$WT" HEAD >/dev/null 2>&1 || { echo "cannot create worktree"; exit 2; }
+fi
 for id in "$@"; do
   d="$SRC/$id"
   out="$d/confirm.txt"
@@ -22,19 +29,19 @@ for id in "$@"; do
     echo "demonstration: $tf :: $tn"
     git apply "$d/patch.diff" || { echo "PATCH-DOES-NOT-APPLY"; continue; }
     cat "$d/demo.rs" >> "$tf"
-    cargo test -p tree-sitter-cli --offline "$tn" > /tmp/vf-seeded-confirm/with.log 2>&1; rc_with=$?
-    echo "with the change:    cargo test $tn -> exit $rc_with  ($(grep -m1 '^test result' /tmp/vf-seeded-confirm/with.log))"
-    grep -m3 "panicked at\|assertion\|double free\|signal:\|SIGABRT\|SIGSEGV" /tmp/vf-seeded-confirm/with.log | cut -c1-300
+    cargo test -p tree-sitter-cli --offline "$tn" > $TMPD/with.log 2>&1; rc_with=$?
+    echo "with the change:    cargo test $tn -> exit $rc_with  ($(grep -m1 '^test result' $TMPD/with.log))"
+    grep -m3 "panicked at\|assertion\|double free\|signal:\|SIGABRT\|SIGSEGV" $TMPD/with.log | cut -c1-300
     git apply -R "$d/patch.diff"
-    cargo test -p tree-sitter-cli --offline "$tn" > /tmp/vf-seeded-confirm/without.log 2>&1; rc_without=$?
-    echo "without the change: cargo test $tn -> exit $rc_without  ($(grep -m1 '^test result' /tmp/vf-seeded-confirm/without.log))"
+    cargo test -p tree-sitter-cli --offline "$tn" > $TMPD/without.log 2>&1; rc_without=$?
+    echo "without the change: cargo test $tn -> exit $rc_without  ($(grep -m1 '^test result' $TMPD/without.log))"
     git checkout -q -- . && git apply "$d/patch.diff"
-    /verif/tools_baseline.sh "$WT" /tmp/vf-seeded-confirm/baseline.log > /tmp/vf-seeded-confirm/base.out 2>&1; rc_base=$?
-    echo "repository suite with the change: $(head -1 /tmp/vf-seeded-confirm/base.out) (exit $rc_base)"
+    /verif/tools_baseline.sh "$WT" $TMPD/baseline.log > $TMPD/base.out 2>&1; rc_base=$?
+    echo "repository suite with the change: $(head -1 $TMPD/base.out) (exit $rc_base)"
     if [ $rc_with -ne 0 ] && [ $rc_without -eq 0 ] && [ $rc_base -eq 0 ]; then echo "CONFIRMED"; else echo "NOT-CONFIRMED"; fi
   } > "$out" 2>&1
   tail -1 "$out" | sed "s/^/$id: /"
 done
 cd /
-git -C /repo worktree remove --force "$WT"
-rm -rf /tmp/vf-seeded-confirm
+if [ -z "${VF_CONFIRM_WT:-}" ]; then git -C /repo worktree remove --force "$WT"; fi
+rm -rf "$TMPD"
